@@ -234,8 +234,11 @@ pub fn test(c: &Case) -> TestResult {
                     let data = a.cur.as_ref().unwrap();
                     match Pin::new(&mut a.w).poll_write(&mut cx, data) {
                         Poll::Ready(Ok(n)) => {
-                            let want = announced;
-                            vensure!(n == want, "c10-write-count", "poll_write of {} bytes returned {n}, expected {want}", data.len());
+                            // "n capped at 65535 per call": a write may accept fewer bytes than
+                            // offered (like any AsyncWrite), never more than the buffer it was
+                            // first polled with nor more than fits one record, and not nothing
+                            let cap = announced;
+                            vensure!(n <= cap && (n > 0 || cap == 0), "c10-write-count", "poll_write of {} bytes (first polled with {cap} usable) returned {n}", data.len());
                             if n > 0 {
                                 completed.push((k, a.next, a.ty, data[..n].to_vec()));
                             }
@@ -345,15 +348,21 @@ pub fn test(c: &Case) -> TestResult {
         }
     }
     if closed {
-        // the log ends with the end-of-request sequence; everything before obeys the rules above
-        let n = recs.len();
-        let tail_ok = n >= 3
-            && recs[n - 3].ty == wire::T_STDOUT && recs[n - 3].payload.is_empty()
-            && recs[n - 2].ty == wire::T_STDERR && recs[n - 2].payload.is_empty()
-            && matches!(mgmt.last(), Some(wire::Reply::End { id, proto: 0, app: 0 }) if *id == c.id)
-            && recs[n - 1].ty == wire::T_END;
-        vensure!(tail_ok, "c17-epilogue", "after close() the log does not end with [stdout end, stderr end, EndRequest(id {})]; last records: {:?}", c.id, recs[n.saturating_sub(3)..].iter().map(|r| (r.ty, r.id, r.payload.len())).collect::<Vec<_>>());
-        mgmt.pop();
+        // the end-of-request sequence: the two stream ends directly followed by EndRequest, after
+        // every stream record; only management replies (for input parsed while the request was
+        // being closed) may follow it
+        let pos = recs.iter().position(|r| r.ty == wire::T_END && r.id == c.id);
+        let ok = pos.is_some_and(|p| {
+            p >= 2
+                && recs[p - 2].payload.is_empty() && recs[p - 1].payload.is_empty()
+                && [recs[p - 2].ty.min(recs[p - 1].ty), recs[p - 2].ty.max(recs[p - 1].ty)] == [wire::T_STDOUT, wire::T_STDERR]
+                && recs[p + 1..].iter().all(|r| !matches!(r.ty, wire::T_STDOUT | wire::T_STDERR) && !(r.ty == wire::T_END && r.id == c.id))
+                && recs[..p - 2].iter().all(|r| !(matches!(r.ty, wire::T_STDOUT | wire::T_STDERR) && r.payload.is_empty()))
+        });
+        vensure!(ok, "c17-epilogue", "after close() the log does not contain exactly one end-of-request sequence (two stream-end records, EndRequest for id {}) behind all stream records; last records: {:?}", c.id, recs[recs.len().saturating_sub(4)..].iter().map(|r| (r.ty, r.id, r.payload.len())).collect::<Vec<_>>());
+        let e = mgmt.iter().position(|m| matches!(m, wire::Reply::End { id, proto: 0, app: 0 } if *id == c.id));
+        vensure!(e.is_some(), "c17-epilogue", "EndRequest of the closed request does not carry RequestComplete / status 0: {:?}", mgmt.iter().find(|m| matches!(m, wire::Reply::End { id, .. } if *id == c.id)));
+        mgmt.remove(e.unwrap());
     }
     vensure!(seen.iter().all(|&s| s), "c10-missing-record", "{} completed write(s) have no record on the log", seen.iter().filter(|&&s| !s).count());
     model::match_replies_prefix(&e1, &mgmt).map_err(|e| Fail::new("c10-mgmt-replies", e))?;
